@@ -518,6 +518,9 @@ class ConcreteElemFactory:
     def __init__(self, parent, prefix):
         self.parent, self.prefix = parent, prefix
 
+    def new_any(self, name, classes, fields):
+        return self.parent.new_any(self.prefix + name, classes, fields)
+
     def int(self, name, lo=None, hi=None):
         return self.parent.int(self.prefix + name, lo, hi)
 
